@@ -79,7 +79,7 @@ def generate(rng, run, tier):
         plan["integration"] = integration
     plan["kind"] = kind
     plan["consumer"] = rng.choice(["flat", "flat", "grouped", "to_graph", "plugin"])
-    plan["frontend"] = rng.choice(["bytesio", "raw", "buffered", "seekable_buffered", "gzip"])
+    plan["frontend"] = rng.choice(["bytesio", "raw", "buffered", "seekable_buffered", "gzip", "duck", "rwpair"])
     plan["policy"] = "tape"
     return plan
 
